@@ -900,7 +900,7 @@ pub fn run(ctx: &Ctx, property: &'static str) -> Report {
     } else {
       cfg.clone()
     };
-    let e = exec(&mut w, &cfg, l, &choices);
+    let e = exec_mode(&mut w, &cfg, l, &choices, v["replay"]["suite"] == "sats-one-update");
     println!("replay history: {}", e.rendered);
     for (p, c, what) in &e.violations {
       println!("  [{p}] {c}: {what}");
@@ -926,6 +926,15 @@ pub fn run(ctx: &Ctx, property: &'static str) -> Report {
   };
   let mut totals: Totals = run_histories(&spec, &mut report, |id| Worker::new(id, l), |w, c| exec(w, &cfg, l, c));
   fold_totals(&mut report, "sats", &totals, k);
+  if ctx.thorough() {
+    // every history with 1..=2 deviations once more with ONE update() for all its blocks
+    let specb = RunSpec { suite: "sats-one-update", k: 2, k_min: 1, cfg_label: cfg.label(), alts: layout.alts(), budget_secs: budget / 3, ..spec };
+    let tb: Totals = run_histories(&specb, &mut report, |id| Worker::new(id + 200, l), |w, c| exec_mode(w, &cfg, l, c, true));
+    fold_totals(&mut report, "sats_one_update", &tb, 2);
+    totals.executions += tb.executions;
+    totals.capped |= tb.capped;
+    totals.states.extend(tb.states);
+  }
   if property != "C17" {
     // the sat index without the inscription index (its lost-sat bookkeeping is separate there)
     let cfg2 = IndexCfg { inscriptions: false, addresses: false, ..cfg.clone() };
